@@ -187,6 +187,7 @@ func (x *g) genMethod(sv *spec.Service, j int, used map[string]bool) {
 			if x.o.Runtime {
 				// a dedicated type: sharing a type between errors and payloads/results is a listed C01 finding
 				ut := x.genObjectTypeNamed("type", strings.Title(strings.ReplaceAll(e.Name, "_", ""))+"Err")
+				ut.ErrorOnly = true
 				e.Type = &spec.Type{Kind: spec.Ref, Ref: ut.Name}
 				x.s.AddFeature("error-usertype")
 			} else if ts := x.plainObjectTypes(); ts != nil {
@@ -215,7 +216,7 @@ func (x *g) genMethod(sv *spec.Service, j int, used map[string]bool) {
 func (x *g) objectTypes() []*spec.UserType {
 	var out []*spec.UserType
 	for _, t := range x.s.Types {
-		if t.Kind == "type" && t.Def != nil && t.Def.Kind == spec.Object {
+		if t.Kind == "type" && t.Def != nil && t.Def.Kind == spec.Object && !t.ErrorOnly {
 			out = append(out, t)
 		}
 	}
